@@ -372,3 +372,9 @@ func Exercise(e error) (op string, panicked string) {
 	}
 	return "", ""
 }
+
+// Try2 runs a boolean function under recover.
+func Try2(f func() bool) (res bool, panicked string) {
+	panicked = Try(func() { res = f() })
+	return
+}
